@@ -24,6 +24,8 @@ CORPORA = {
                     family="timeout", trace="TimeoutTrace.tla", tracecfg="TimeoutTrace.cfg"),
     "router": dict(gen="MCRouter.tla", cfg={"quick": "router_quick.cfg", "thorough": "router_thorough.cfg"},
                    family="router", trace="RouterTrace.tla", tracecfg="RouterTrace.cfg", shards=16),
+    "config": dict(gen="MCConfig.tla", cfg={"quick": "config_quick.cfg", "thorough": "config_thorough.cfg"},
+                   family="config", trace="ConfigTrace.tla", tracecfg="ConfigTrace.cfg"),
     "stream_headers": dict(gen="MCStream.tla", cfg={"quick": "stream_headers_quick.cfg", "thorough": "stream_headers_thorough.cfg"},
                            family="stream", trace="StreamTrace.tla", tracecfg="StreamTrace.cfg"),
 }
@@ -44,6 +46,7 @@ PROPS = {
     "C11": dict(corpora=["stream_hostile", "stream_faults", "stream_errors", "stream_reject"], prefix="C11."),
     "C12": dict(corpora=["timeout"], prefix="C12."),
     "C13": dict(corpora=["stream_matrix", "stream_reject"], prefix="C13."),
+    "C17": dict(corpora=["config"], prefix="C17."),
     "C18": dict(corpora=["stream_reject", "stream_matrix", "stream_faults"], prefix="C18."),
 }
 
